@@ -723,3 +723,104 @@ Proof.
   intros q L r H. apply dd_res_adv; [cbn; lia|apply fire_small; lia|].
   unfold lst, nxt. cbn [nth Nat.leb andb]. change (nsd SEP) with false. cbv iota. exact H.
 Qed.
+
+(* ---- the spec machine is invariant under the collapse ------------------------------------------------ *)
+Lemma nm_proper : forall n, nm n -> proper n = true.
+Proof.
+  intros n ((_ & _ & Hne) & Hn). apply proper_intro.
+  - destruct n; [congruence|reflexivity].
+  - destruct (is_dot n) eqn:E; [|reflexivity]. apply is_dot_eq in E. subst n. discriminate.
+  - destruct (is_dotdot n) eqn:E; [|reflexivity]. apply is_dotdot_eq in E. subst n. discriminate.
+Qed.
+
+Lemma machine_cancel : forall R A n Y, nm n ->
+  normal_elems R (A ++ [n; DD] ++ Y) = normal_elems R (A ++ match Y with [] => [[]] | _ => Y end).
+Proof.
+  intros R A n Y Hn. pose proof (nm_proper n Hn) as P.
+  unfold normal_elems. rewrite !fold_left_app.
+  destruct (fold_left (norm_step R) A ([], false)) as [o t].
+  assert (S2 : fold_left (norm_step R) [n; DD] (o, t) = (o, true)).
+  { cbn [fold_left]. unfold norm_step at 2. rewrite (proper_not_empty n P), (proper_not_dot n P), (proper_not_dotdot n P).
+    cbn [orb]. unfold norm_step. cbn. rewrite (proper_not_dotdot n P). reflexivity. }
+  rewrite S2. destruct Y as [|y Y'].
+  - reflexivity.
+  - cbn [fold_left]. rewrite (step_trail_irrelevant R o true t). reflexivity.
+Qed.
+
+(* ---- plain field lists: every field is ".." or a name -------------------------------------------------- *)
+Definition fld (e : elem) : Prop := e = DD \/ nm e.
+
+Lemma split_plain : forall H, Forall fld H ->
+  (exists D N, H = D ++ N /\ allDD D /\ allnm N) \/
+  (exists D N' n C, H = (D ++ N' ++ [n]) ++ DD :: C /\ allDD D /\ allnm (N' ++ [n]) /\ Forall fld C).
+Proof.
+  induction H as [|e H IH]; intro HF.
+  - left. exists [], []. repeat split; constructor.
+  - pose proof (Forall_inv HF) as He. specialize (IH (Forall_inv_tail HF)).
+    destruct He as [-> | He].
+    + destruct IH as [(D & N & -> & HD & HN) | (D & N' & n & C & -> & HD & HN & HC)].
+      * left. exists (DD :: D), N. repeat split; [constructor; auto|exact HN].
+      * right. exists (DD :: D), N', n, C. repeat split; [constructor; auto|exact HN|exact HC].
+    + destruct IH as [(D & N & -> & HD & HN) | (D & N' & n & C & -> & HD & HN & HC)].
+      * destruct D as [|d D'].
+        -- left. exists [], (e :: N). repeat split; [constructor|constructor; assumption].
+        -- inversion HD; subst. right. exists [], [], e, (D' ++ N). repeat split.
+           ++ constructor.
+           ++ cbn [app]. constructor; [exact He|constructor].
+           ++ apply Forall_app. split; [eapply Forall_impl; [|exact H2]; intros a ->; left; reflexivity|].
+              eapply Forall_impl; [|exact HN]. intros a Ha. right. exact Ha.
+      * destruct D as [|d D'].
+        -- right. exists [], (e :: N'), n, C. repeat split; [constructor|constructor; assumption|exact HC].
+        -- inversion HD; subst. right. exists [], [], e, ((D' ++ N' ++ [n]) ++ DD :: C). repeat split.
+           ++ constructor.
+           ++ cbn [app]. constructor; [exact He|constructor].
+           ++ apply Forall_app. split.
+              ** apply Forall_app. split; [eapply Forall_impl; [|exact H2]; intros a ->; left; reflexivity|].
+                 eapply Forall_impl; [|exact HN]. intros a Ha. right. exact Ha.
+              ** constructor; [left; reflexivity|exact HC].
+Qed.
+
+Lemma pass2_plain : forall k, (k = 0 \/ k = 1) -> forall n H tl,
+  (length H <= n)%nat -> Forall fld H -> (tl = [] \/ tl = [[]]) ->
+  exists D N tl', allDD D /\ allnm N /\ (tl' = [] \/ tl' = [[]]) /\
+    dd_res (length (root_acc k)) (TX k (H ++ tl)) (length (TX k (H ++ tl))) 0 (TX k (D ++ N ++ tl')) /\
+    (forall R, normal_elems R (H ++ tl) = normal_elems R (D ++ N ++ tl')).
+Proof.
+  intros k Hk. induction n as [|n IH]; intros H tl Hlen HF Htl.
+  - destruct H; [|cbn in Hlen; lia]. exists [], [], tl.
+    split; [constructor|]. split; [constructor|]. split; [exact Htl|]. split; [|reflexivity].
+    apply (scan_nocancel k [] [] tl Hk); [constructor|constructor|exact Htl].
+  - destruct (split_plain H HF) as [(D & N & -> & HD & HN) | (D & N' & n0 & C & -> & HD & HN & HC)].
+    + exists D, N, tl. repeat split; auto.
+      * rewrite <- app_assoc. apply scan_nocancel; auto.
+      * intro R. rewrite <- app_assoc. reflexivity.
+    + (* one collapse, then the induction hypothesis on the shorter list *)
+      assert (Hn0 : nm n0) by (apply Forall_app in HN as [_ A]; inversion A; assumption).
+      assert (HN' : allnm N') by (apply Forall_app in HN as [A _]; exact A).
+      assert (HDN : Forall fld (D ++ N')).
+      { apply Forall_app. split; [eapply Forall_impl; [|exact HD]; intros a ->; left; reflexivity|].
+        eapply Forall_impl; [|exact HN']. intros a Ha. right. exact Ha. }
+      set (Y := C ++ tl).
+      assert (EF : ((D ++ N' ++ [n0]) ++ DD :: C) ++ tl = (D ++ N' ++ [n0]) ++ DD :: Y).
+      { unfold Y. rewrite <- !app_assoc. reflexivity. }
+      assert (Hshort : exists H' tl'', (D ++ N') ++ match Y with [] => [[]] | _ => Y end = H' ++ tl'' /\
+                        Forall fld H' /\ (tl'' = [] \/ tl'' = [[]]) /\ (length H' <= n)%nat).
+      { repeat (rewrite ?app_length in Hlen; cbn [length] in Hlen).
+        destruct C as [|c C'].
+        - destruct Htl as [-> | ->]; unfold Y; cbn [app].
+          + exists (D ++ N'), [[]]. repeat split; auto. rewrite app_length. lia.
+          + exists (D ++ N'), [[]]. repeat split; auto. rewrite app_length. lia.
+        - exists ((D ++ N') ++ c :: C'), tl. unfold Y. cbn [app]. repeat split; auto.
+          + rewrite <- !app_assoc. reflexivity.
+          + apply Forall_app. split; assumption.
+          + cbn [length] in Hlen. rewrite !app_length. cbn [length]. lia. }
+      destruct Hshort as (H' & tl'' & EH & HF' & Htl'' & Hlen').
+      destruct (IH H' tl'' Hlen' HF' Htl'') as (D2 & N2 & tl2 & HD2 & HN2 & Htl2 & Hres & Hm).
+      exists D2, N2, tl2. repeat split; auto.
+      * rewrite EF. apply scan_cancel; auto. rewrite EH.
+        destruct Hk as [-> | ->]; [exact Hres|].
+        unfold TX in *. change (root_acc 1) with [SEP] in *. cbn [app length] in *. apply dd_res_root. exact Hres.
+      * intro R. rewrite EF. rewrite <- Hm, <- EH.
+        replace ((D ++ N' ++ [n0]) ++ DD :: Y) with ((D ++ N') ++ [n0; DD] ++ Y) by (rewrite <- !app_assoc; reflexivity).
+        apply machine_cancel. exact Hn0.
+Qed.
